@@ -257,23 +257,24 @@ def same_up_to_accumulation_order(a, b, truth=None, factor: float = 64.0) -> boo
     return close(ga, gb, tg) and all(close(u, v, t) for u, v, t in zip(pa, pb, tp))
 
 
-def graph_cases(rep: Report, rng: random.Random, n: int) -> None:
+def graph_cases(rep: Report, case_seeds: List[int]) -> None:
     import copy
 
     from unit_scaling.transforms._simulate_format import _quantisation_backend
 
     items = []
-    for i in range(n):
+    for cs in case_seeds:      # every case is generated from its own seed (recorded for replays)
+        rng = random.Random(cs)
         gen = Gen15(rng)
         gm, x = gen.build(rng.randint(1, 12))
         table: Dict[str, Any] = {}
         consts: Dict[str, Any] = {}
         g_in = project(gm.graph, table, consts)
-        items.append((gm, x, table, consts, g_in))
+        items.append((gm, x, table, consts, g_in, rng, cs))
     ev = common.tlc_eval("SimFormat_Eval", "SimFormat_Eval.cfg", [it[4] for it in items], tag="sfeval", timeout=1200)
     rep.states += ev["states"]
     rep.transitions += ev["transitions"]
-    for i, ((gm, x, table, consts, g_in), e) in enumerate(zip(items, ev["out"])):
+    for i, ((gm, x, table, consts, g_in, rng, cs), e) in enumerate(zip(items, ev["out"])):
         if not (e["wf"] and e["refines"] and e["executes"]):
             raise common.MachineryError(f"SimFormat_Eval: spec-internal check failed for graph {i}: {e['wf']}, {e['refines']}, {e['executes']}")
         kind = rng.choice(FORMAT_KINDS)
@@ -285,8 +286,8 @@ def graph_cases(rep: Report, rng: random.Random, n: int) -> None:
         ref = build_reference(e["recipe"], gm, table, consts, fwd, bwd)
         r_ref = run_pinned(ref, x, params, seed)
         label = f"formats={kind} ({fwd}, {bwd}); graph targets={[n_['tgt'] for n_ in g_in]}"
-        case = {"graph": g_in, "formats": kind, "seed": seed, "code": gm.code}
-        rep.case(("graph", i, kind), nontrivial=e["nquant"] >= 1)
+        case = {"graph": g_in, "formats": kind, "seed": seed, "code": gm.code, "case_seed": cs}
+        rep.case(("graph", cs, kind), nontrivial=e["nquant"] >= 1)
         gm2 = fx.GraphModule(gm, copy.deepcopy(gm.graph))
         try:
             tm = _quantisation_backend(fwd, bwd)(gm2, [x])
@@ -508,7 +509,7 @@ def run(rep: Report, tier: str) -> None:
         rep.extra.setdefault("l2_refuted_deviations", []).append({"legacy": leg, "violated": r.violated_invariant})
     format_round_trip(rep)
     straight_through(rep, rng, 200 if quick else 2000)
-    graph_cases(rep, rng, 150 if quick else 2000)
+    graph_cases(rep, [rng.randrange(1 << 30) for _ in range(150 if quick else 2000)])
     dynamo_cases(rep, rng, ["nearest", "srbits"] if quick else FORMAT_KINDS)
     rep.rule = "random FX graphs of depth 1-12 over the call styles of linear / attention (+ elementwise, norm, add, reshape), inputs of rank 2-4, one of 6 format pairs each; straight-through bit patterns for 6 formats; module family x formats through TorchDynamo; non-trivial = graphs with at least one quantisable op"
     rep.sample({"format_kinds": FORMAT_KINDS})
@@ -516,8 +517,13 @@ def run(rep: Report, tier: str) -> None:
 
 
 def replay(rep: Report, path: str) -> None:
+    """Graph cases are re-created from their case seed; the (few) other cases by re-running the quick tier."""
     d = json.load(open(path))
     rep.case("replay")
     rep.case(json.dumps(d["case"], default=str)[:200])
     rep.sample({k: v for k, v in d["case"].items() if k != "graph"})
-    run(rep, "quick")
+    torch.set_num_threads(2)
+    if d["case"].get("case_seed") is not None:
+        graph_cases(rep, [int(d["case"]["case_seed"])])
+    else:
+        run(rep, "quick")
